@@ -271,14 +271,13 @@ def run_verus(prop, tier, seed=0, repo=None):
         for name, a, b, props in g.fn_spans:
             if prop not in (props or u.PROPS):
                 continue
-            ncalls = sum(1 for l in glines[a - 1:b] for p in PRIMS if '.%s(' % p in l)
-            arith = sum(1 for l in glines[a - 1:b] if re.search(r'[-+*/]=?\s', l) and '/*OB:' not in l)
+            ncalls = 0 if name == 'lemmas' else sum(1 for l in glines[a - 1:b] for p in PRIMS if '.%s(' % p in l or ' %s(' % p in l)
             ms = int(ftime.get(name, {}).get('time-micros', 0) / 1000)
             fail_here = [k for k in failed if k not in marker_labels and k.split('.')[0] == name and prop in failed[k][1]]
-            cnt = max(0, ncalls + arith - len(fail_here))
+            cnt = max(0, ncalls - len([k for k in fail_here if '.pre.' in k]))
             if cnt:
-                vr.obligations.append(Obligation('%s.V.%s.%s.call-preconditions+arith' % (prop, u.NAME, name), 'verus', 'all-N', 'discharged', ms,
-                                                 detail='preconditions of %d prelude-primitive calls, %d arithmetic/bounds sites' % (ncalls, arith), count=cnt))
+                vr.obligations.append(Obligation('%s.V.%s.%s.call-site-preconditions' % (prop, u.NAME, name), 'verus', 'all-N', 'discharged', ms,
+                                                 detail='preconditions of %d calls of prelude primitives (slot state, bounds, provenance)' % ncalls, count=cnt))
             for k in fail_here:
                 vr.obligations.append(Obligation('%s.V.%s.%s' % (prop, u.NAME, k), 'verus', 'all-N', 'refuted', ms, detail=failed[k][0]))
         for k in failed:   # failures outside any extracted function (e.g. a lemma of the unit)
